@@ -27,8 +27,17 @@ import (
 // UserEvent / Query calls (distinct payloads), while an injector goroutine
 // feeds foreign events and queries with generated Lamport times through the
 // memberlist delegate.  Every operation gets begin/end stamps from one atomic
-// counter.  The Lamport time of each local event is read from the broadcast
-// queue (decoded) and of each local query from its QueryResponse.
+// counter.  The Lamport time an operation "carries" is observed three ways:
+// decoded from the broadcast queue (events and queries), from the query's
+// QueryResponse (the key replies are routed by), and from the copy delivered
+// to the local application; the oracle holds for every one of these views.
+//
+// Local calls vary the options that do not matter for the property (coalesce
+// flag; ack request, relay factor, filters that do or do not select the node
+// itself).  Foreign events and queries arrive by gossip or, for events, in the
+// recent-event list of a push/pull state exchange; foreign queries may be
+// filtered away from this node or carry the no-rebroadcast flag; foreign
+// Lamport times jump by small steps and by 2^31, 2^32, 2^40.
 //
 // The interleaving is chosen by the Go scheduler: a violation is real, but it
 // cannot be shrunk and a replay re-runs the same program, not the same
@@ -37,11 +46,22 @@ import (
 type c06Foreign struct {
 	Query bool `json:"q"`    // foreign query (else foreign user event)
 	Jump  int  `json:"jump"` // its LTime = previous foreign LTime of that kind + Jump
+	// Form: events: 1 = delivered in the recent-event list of a push/pull state
+	// exchange instead of by gossip; queries: 1 = with a node filter that does not
+	// select this node, 2 = with the no-rebroadcast flag, 3 = both
+	Form int `json:"form,omitempty"`
 }
 
 type c06Case struct {
-	Workers [][]int      `json:"workers"` // per goroutine: call kinds, 0 = UserEvent, 1 = Query
+	// per goroutine: call kinds. 0 = UserEvent, 1 = Query, 2 = UserEvent with the
+	// coalesce flag, 3 = Query asking for acks, relay factor 1, node filter that
+	// does not select the node itself, 4 = Query with node and tag filters that
+	// select the node itself
+	Workers [][]int      `json:"workers"`
 	Foreign []c06Foreign `json:"foreign"`
+	// SlowSinkUs > 0: the metrics sink takes this long for the per-event /
+	// per-query counters (bumped inside the handlers, after the clock was witnessed)
+	SlowSinkUs int `json:"slow_sink_us,omitempty"`
 }
 
 func genC06(t *rapid.T) c06Case {
@@ -53,12 +73,26 @@ func genC06(t *rapid.T) c06Case {
 		w := make([]int, n)
 		for j := range w {
 			w[j] = rapid.SampledFrom(mix).Draw(t, "kind")
+			if rapid.IntRange(0, 3).Draw(t, "variant") == 0 { // same kind of call, other options
+				if w[j] == 0 {
+					w[j] = 2
+				} else {
+					w[j] = rapid.SampledFrom([]int{3, 4}).Draw(t, "qvariant")
+				}
+			}
 		}
 		c.Workers = append(c.Workers, w)
 	}
 	nf := rapid.IntRange(0, 30).Draw(t, "foreign")
 	for i := 0; i < nf; i++ {
-		c.Foreign = append(c.Foreign, c06Foreign{Query: rapid.Bool().Draw(t, "fq"), Jump: rapid.SampledFrom([]int{0, 1, 1, 2, 3, 5, 20, 100, 400}).Draw(t, "jump")})
+		c.Foreign = append(c.Foreign, c06Foreign{
+			Query: rapid.Bool().Draw(t, "fq"),
+			Jump:  rapid.SampledFrom([]int{0, 1, 1, 2, 3, 5, 20, 100, 400, 0, 1, 1, 2, 3, 5, 20, 100, 400, 1 << 31, 1 << 32, 1 << 40}).Draw(t, "jump"),
+			Form:  rapid.SampledFrom([]int{0, 0, 1, 2, 3}).Draw(t, "form"),
+		})
+	}
+	if rapid.IntRange(0, 5).Draw(t, "slow-sink?") == 0 {
+		c.SlowSinkUs = rapid.SampledFrom([]int{20, 100}).Draw(t, "slow-sink")
 	}
 	return c
 }
@@ -67,14 +101,16 @@ type c06Op struct {
 	query      bool
 	local      bool
 	begin, end int64
-	ltime      serf.LamportTime
+	ltime      serf.LamportTime // primary view: broadcast queue (events), QueryResponse (queries); foreign: as sent
+	wire       *serf.LamportTime // local queries: the time in the queued broadcast
+	app        *serf.LamportTime // local calls: the time of the copy delivered to the application, when one was
 	tag        string
 	err        error
 }
 
 func bodyC06(c c06Case, x *vkit.Ctx) {
 	nw := simnet.New(1)
-	n := mkNode(x, nw, node.Opts{Name: "c06-self", Quiet: true, EventBuf: 1 << 15, Mutate: func(conf *serf.Config) {
+	n := mkNode(x, nw, node.Opts{Name: "c06-self", Quiet: true, EventBuf: 1 << 15, Tags: map[string]string{"role": "c06"}, Mutate: func(conf *serf.Config) {
 		conf.EventBuffer = 1 << 14 // nothing issued in one case is ever "too old"
 		conf.QueryBuffer = 1 << 14
 	}})
@@ -82,6 +118,10 @@ func bodyC06(c c06Case, x *vkit.Ctx) {
 		return
 	}
 	defer n.Stop()
+	if c.SlowSinkUs > 0 {
+		defer slowMetrics(time.Duration(min(c.SlowSinkUs, 500))*time.Microsecond, "events", "queries")()
+		x.Label("slow-metrics-sink")
+	}
 
 	var stamp atomic.Int64
 	start := make(chan struct{})
@@ -94,10 +134,17 @@ func bodyC06(c c06Case, x *vkit.Ctx) {
 			ops := make([]*c06Op, 0, len(calls))
 			<-start
 			for i, k := range calls {
-				op := &c06Op{query: k == 1, local: true, tag: fmt.Sprintf("w%d-%d", g, i)}
+				op := &c06Op{query: k == 1 || k == 3 || k == 4, local: true, tag: fmt.Sprintf("w%d-%d", g, i)}
 				if op.query {
+					p := &serf.QueryParam{Timeout: 5 * time.Millisecond}
+					switch k {
+					case 3:
+						p.RequestAck, p.RelayFactor, p.FilterNodes = true, 1, []string{"someone-else"}
+					case 4:
+						p.FilterNodes, p.FilterTags = []string{"c06-self", "someone-else"}, map[string]string{"role": "^c0"}
+					}
 					op.begin = stamp.Add(1)
-					r, err := n.Serf.Query("c06", []byte(op.tag), &serf.QueryParam{Timeout: 5 * time.Millisecond})
+					r, err := n.Serf.Query("c06", []byte(op.tag), p)
 					op.end = stamp.Add(1)
 					op.err = err
 					if err == nil {
@@ -105,7 +152,7 @@ func bodyC06(c c06Case, x *vkit.Ctx) {
 					}
 				} else {
 					op.begin = stamp.Add(1)
-					op.err = n.Serf.UserEvent("c06", []byte(op.tag), false)
+					op.err = n.Serf.UserEvent("c06", []byte(op.tag), k == 2)
 					op.end = stamp.Add(1)
 				}
 				ops = append(ops, op)
@@ -121,19 +168,39 @@ func bodyC06(c c06Case, x *vkit.Ctx) {
 		<-start
 		for i, f := range c.Foreign {
 			op := &c06Op{query: f.Query, tag: fmt.Sprintf("f%d", i)}
-			jump := uint64(min(max(f.Jump, 0), 100000))
+			jump := uint64(min(max(f.Jump, 0), 1<<41))
 			var buf []byte
+			pushPull := false
 			if f.Query {
 				qL += jump
 				op.ltime = serf.LamportTime(qL)
-				buf = mustEncode(serf.VerifMessageQueryType, foreignQuery(qL, uint32(0xE0000000+i), "c06-foreign", []byte(op.tag)))
+				fq := foreignQuery(qL, uint32(0xE0000000+i), "c06-foreign", []byte(op.tag))
+				if f.Form&1 != 0 {
+					fb, _ := serf.VerifEncodeFilter(serf.VerifFilterNodeType, []string{"someone-else"})
+					fq.Filters = [][]byte{fb}
+				}
+				if f.Form&2 != 0 {
+					fq.Flags |= serf.VerifQueryFlagNoBroadcast
+				}
+				buf = mustEncode(serf.VerifMessageQueryType, fq)
 			} else {
 				evL += jump
 				op.ltime = serf.LamportTime(evL)
-				buf = mustEncode(serf.VerifMessageUserEventType, &serf.VerifMessageUserEvent{LTime: serf.LamportTime(evL), Name: "c06-foreign", Payload: []byte(op.tag)})
+				if pushPull = f.Form&1 != 0; pushPull {
+					buf = mustEncode(serf.VerifMessagePushPullType, &serf.VerifMessagePushPull{
+						StatusLTimes: map[string]serf.LamportTime{}, LeftMembers: []string{},
+						Events: []*serf.VerifUserEvents{nil, {LTime: serf.LamportTime(evL), Events: []serf.VerifUserEvent{{Name: "c06-foreign", Payload: []byte(op.tag)}}}},
+					})
+				} else {
+					buf = mustEncode(serf.VerifMessageUserEventType, &serf.VerifMessageUserEvent{LTime: serf.LamportTime(evL), Name: "c06-foreign", Payload: []byte(op.tag)})
+				}
 			}
 			op.begin = stamp.Add(1)
-			n.Delegate.NotifyMsg(buf)
+			if pushPull {
+				n.Delegate.MergeRemoteState(buf, false)
+			} else {
+				n.Delegate.NotifyMsg(buf)
+			}
 			op.end = stamp.Add(1)
 			ops = append(ops, op)
 			runtime.Gosched()
@@ -143,8 +210,8 @@ func bodyC06(c c06Case, x *vkit.Ctx) {
 	close(start)
 	wg.Wait()
 
-	// ---- collect: Lamport times of the local user events from the broadcast queue
-	_, _, evq := n.Serf.VerifQueued()
+	// ---- collect: Lamport times carried by the queued broadcasts of the local calls ...
+	_, qq, evq := n.Serf.VerifQueued()
 	evTime := map[string][]serf.LamportTime{}
 	for _, b := range evq {
 		var m serf.VerifMessageUserEvent
@@ -153,6 +220,31 @@ func bodyC06(c c06Case, x *vkit.Ctx) {
 		}
 		if m.Name == "c06" {
 			evTime[string(m.Payload)] = append(evTime[string(m.Payload)], m.LTime)
+		}
+	}
+	qTime := map[string][]serf.LamportTime{}
+	for _, b := range qq {
+		var m serf.VerifMessageQuery
+		if len(b) < 1 || b[0] != serf.VerifMessageQueryType || serf.VerifDecodeMessage(b[1:], &m) != nil {
+			continue
+		}
+		if m.Name == "c06" {
+			qTime[string(m.Payload)] = append(qTime[string(m.Payload)], m.LTime)
+		}
+	}
+	// ... and by the copies handed to the local application (whatever arrived; a
+	// copy that is missing or late is not this property's business)
+	appEv, appQ := map[string]serf.LamportTime{}, map[string]serf.LamportTime{}
+	for _, e := range n.Drain(node.Settle) {
+		switch v := e.(type) {
+		case serf.UserEvent:
+			if v.Name == "c06" {
+				appEv[string(v.Payload)] = v.LTime
+			}
+		case *serf.Query:
+			if v.Name == "c06" {
+				appQ[string(v.Payload)] = v.LTime
+			}
 		}
 	}
 	var all []*c06Op
@@ -169,83 +261,132 @@ func bodyC06(c c06Case, x *vkit.Ctx) {
 					return
 				}
 				op.ltime = ts[0]
+				if t, ok := appEv[op.tag]; ok {
+					op.app = &t
+				}
+			}
+			if op.local && op.query {
+				if ts := qTime[op.tag]; len(ts) == 1 {
+					op.wire = &ts[0]
+				} else {
+					x.Inconclusive(fmt.Sprintf("query %s found %d times in the broadcast queue", op.tag, len(ts)))
+					return
+				}
+				if t, ok := appQ[op.tag]; ok {
+					op.app = &t
+				}
 			}
 			all = append(all, op)
 		}
 	}
 
-	// ---- oracle
-	for _, isQuery := range []bool{false, true} {
-		kind := "user event"
-		sigShared, sigCausal := "shared-ltime-user-events", "ltime-not-after-processed-event"
-		if isQuery {
-			kind = "query"
-			sigShared, sigCausal = "shared-ltime-queries", "ltime-not-after-processed-query"
-		}
-		var ops, locals []*c06Op
-		for _, op := range all {
-			if op.query == isQuery {
-				ops = append(ops, op)
-				if op.local {
-					locals = append(locals, op)
+	// ---- oracle, once per view of "the Lamport time the call's event / query carries"
+	views := []struct {
+		name string
+		time func(op *c06Op) serf.LamportTime
+	}{
+		{"", func(op *c06Op) serf.LamportTime { return op.ltime }},
+		{" (time in the queued broadcast)", func(op *c06Op) serf.LamportTime {
+			if op.wire != nil {
+				return *op.wire
+			}
+			return op.ltime
+		}},
+		{" (time of the copy delivered to the local application)", func(op *c06Op) serf.LamportTime {
+			if op.app != nil {
+				return *op.app
+			}
+			return op.ltime
+		}},
+	}
+	for vi, view := range views {
+		if vi > 0 {
+			differs := false
+			for _, op := range all {
+				if view.time(op) != op.ltime {
+					differs = true
 				}
 			}
-		}
-		// (a) uniqueness among locally originated ones
-		byTime := map[serf.LamportTime][]string{}
-		for _, op := range locals {
-			byTime[op.ltime] = append(byTime[op.ltime], op.tag)
-		}
-		var shared []string
-		for lt, tags := range byTime {
-			if len(tags) > 1 {
-				sort.Strings(tags)
-				shared = append(shared, fmt.Sprintf("LTime %d: %s", lt, strings.Join(tags, ",")))
+			if !differs {
+				continue // same numbers as the primary view: already judged
 			}
+			x.Label("views-differ")
 		}
-		if len(shared) > 0 {
-			sort.Strings(shared)
-			more := ""
-			if len(shared) > 4 {
-				more = fmt.Sprintf(" … and %d more", len(shared)-4)
-				shared = shared[:4]
+		for _, isQuery := range []bool{false, true} {
+			kind := "user event"
+			sigShared, sigCausal := "shared-ltime-user-events", "ltime-not-after-processed-event"
+			if isQuery {
+				kind = "query"
+				sigShared, sigCausal = "shared-ltime-queries", "ltime-not-after-processed-query"
 			}
-			x.Violationf(sigShared, "%d locally originated %s calls in %d goroutines: Lamport times shared by different calls: %s%s", len(locals), kind, len(c.Workers), strings.Join(shared, "; "), more)
-			return
-		}
-		// (b) causality: later than everything whose processing had completed before the call began
-		sort.Slice(ops, func(i, j int) bool { return ops[i].end < ops[j].end })
-		overlap := false
-		for _, cl := range locals {
-			for _, p := range ops {
-				if p.end >= cl.begin {
-					break
-				}
-				if cl.ltime <= p.ltime {
-					who := "foreign"
-					if p.local {
-						who = "local"
+			var ops, locals []*c06Op
+			for _, op := range all {
+				if op.query == isQuery {
+					ops = append(ops, op)
+					if op.local {
+						locals = append(locals, op)
 					}
-					x.Violationf(sigCausal, "%s %s got LTime %d, but the %s %s %s with LTime %d had completed before the call began", kind, cl.tag, cl.ltime, who, kind, p.tag, p.ltime)
-					return
 				}
 			}
-		}
-		for i, a := range locals {
-			for _, b := range locals[i+1:] {
-				if a.begin < b.end && b.begin < a.end {
-					overlap = true
+			// (a) uniqueness among locally originated ones
+			byTime := map[serf.LamportTime][]string{}
+			for _, op := range locals {
+				byTime[view.time(op)] = append(byTime[view.time(op)], op.tag)
+			}
+			var shared []string
+			for lt, tags := range byTime {
+				if len(tags) > 1 {
+					sort.Strings(tags)
+					shared = append(shared, fmt.Sprintf("LTime %d: %s", lt, strings.Join(tags, ",")))
+				}
+			}
+			if len(shared) > 0 {
+				sort.Strings(shared)
+				more := ""
+				if len(shared) > 4 {
+					more = fmt.Sprintf(" … and %d more", len(shared)-4)
+					shared = shared[:4]
+				}
+				x.Violationf(sigShared, "%d locally originated %s calls in %d goroutines: Lamport times%s shared by different calls: %s%s", len(locals), kind, len(c.Workers), view.name, strings.Join(shared, "; "), more)
+				return
+			}
+			// (b) causality: later than everything whose processing had completed before the call began
+			sort.Slice(ops, func(i, j int) bool { return ops[i].end < ops[j].end })
+			for _, cl := range locals {
+				for _, p := range ops {
+					if p.end >= cl.begin {
+						break
+					}
+					if view.time(cl) <= view.time(p) {
+						who := "foreign"
+						if p.local {
+							who = "local"
+						}
+						x.Violationf(sigCausal, "%s %s got LTime %d%s, but the %s %s %s with LTime %d had completed before the call began", kind, cl.tag, view.time(cl), view.name, who, kind, p.tag, view.time(p))
+						return
+					}
+				}
+			}
+			if vi > 0 {
+				continue
+			}
+			overlap := false
+			for i, a := range locals {
+				for _, b := range locals[i+1:] {
+					if a.begin < b.end && b.begin < a.end {
+						overlap = true
+					}
+				}
+				if overlap {
+					break
 				}
 			}
 			if overlap {
-				break
+				x.Label("overlapping-" + strings.ReplaceAll(kind, " ", "-") + "-calls")
+				x.NonTrivial(true)
 			}
+			x.Labelf("local-%s-calls=%d+", strings.ReplaceAll(kind, " ", "-"), len(locals)/100*100)
 		}
-		if overlap {
-			x.Label("overlapping-" + strings.ReplaceAll(kind, " ", "-") + "-calls")
-			x.NonTrivial(true)
-		}
-		x.Labelf("local-%s-calls=%d+", strings.ReplaceAll(kind, " ", "-"), len(locals)/100*100)
 	}
 }
 
